@@ -30,7 +30,7 @@ func init() {
 		// forget=1: the proxy client writes and closes at once without waiting for an answer (a
 		// fire-and-forget request); what it wrote must still reach the proxy server
 		sc := &vrt.Scenario{
-			Opt:      vrt.Options{Delay: c.P("delay", "1") == "1", HorizonNs: int64(200 * time.Second), MemVars: true},
+			Opt:      vrt.Options{Delay: c.P("delay", "1") == "1", HorizonNs: int64(200+c.PI("rounds", 1)*c.PI("gap", 100)) * int64(time.Second), MemVars: true},
 			Classify: deadlockIs("liveness: the tunnel stopped moving data on healthy connections"),
 			Main: func() {
 				uid := uidOf(0)
@@ -43,6 +43,7 @@ func init() {
 				var pwg sync.WaitGroup
 				proxySawEOF := 0
 				forget := c.P("forget", "0") == "1"
+				rounds, gap := c.PI("rounds", 1), c.PI("gap", 100)
 				proxyGot := map[byte]int{}
 				vrt.Go("proxy-server", func() {
 					for {
@@ -109,34 +110,41 @@ func init() {
 							vrt.Fail("harness", "dial local: %v", err)
 						}
 						var sent, got []byte
-						for k, sz := range sizes {
-							chunk := make([]byte, sz)
-							for j := range chunk {
-								chunk[j] = byte(i*64 + k*16 + j)
-							}
-							if _, err := conn.Write(chunk); err != nil {
-								vrt.Fail("no-error-on-healthy-session", "proxy client %d write: %v", i, err)
-							}
-							sent = append(sent, chunk...)
-						}
-						if forget {
-							conn.Close()
-							return
-						}
 						buf := make([]byte, 65536)
-						for len(got) < len(sent) {
-							k, err := conn.Read(buf)
-							got = append(got, buf[:k]...)
-							if err != nil {
-								vrt.Fail("bytes-exact", "proxy client %d: connection ended (%v) after %d of %d answer bytes", i, err, len(got), len(sent))
+						for round := 0; round < rounds; round++ {
+							if round > 0 {
+								// a long-lived, regularly used connection: the next request comes `gap` seconds later
+								time.Sleep(time.Duration(gap) * time.Second)
 							}
-						}
-						want := make([]byte, len(sent))
-						for j := range sent {
-							want[j] = sent[j] ^ 0x55
-						}
-						if !bytes.Equal(got, want) {
-							vrt.Fail("bytes-exact", "proxy client %d: the answer differs from what the proxy server sent (first difference at %d of %d)", i, firstDiff(got, want), len(want))
+							sent, got = nil, nil
+							for k, sz := range sizes {
+								chunk := make([]byte, sz)
+								for j := range chunk {
+									chunk[j] = byte(i*64 + k*16 + j)
+								}
+								if _, err := conn.Write(chunk); err != nil {
+									vrt.Fail("no-error-on-healthy-session", "proxy client %d write: %v", i, err)
+								}
+								sent = append(sent, chunk...)
+							}
+							if forget {
+								conn.Close()
+								return
+							}
+							for len(got) < len(sent) {
+								k, err := conn.Read(buf)
+								got = append(got, buf[:k]...)
+								if err != nil {
+									vrt.Fail("bytes-exact", "proxy client %d, request %d (%d s after connecting): connection ended (%v) after %d of %d answer bytes", i, round, round*gap, err, len(got), len(sent))
+								}
+							}
+							want := make([]byte, len(sent))
+							for j := range sent {
+								want[j] = sent[j] ^ 0x55
+							}
+							if !bytes.Equal(got, want) {
+								vrt.Fail("bytes-exact", "proxy client %d: the answer differs from what the proxy server sent (first difference at %d of %d)", i, firstDiff(got, want), len(want))
+							}
 						}
 						if closeBy == "app" {
 							conn.Close()
